@@ -249,22 +249,29 @@ func (w *Writer) DeleteNode(x *skiplist.Node) (success bool) {
 		}
 	}()
 
-	vyield(SiteDelSetLink)
-	x.SetLink(nil)
 	sn := w.GetCurrSn()
 	gotItem := (*Item)(x.Item())
 	if gotItem.bornSn == sn {
 		success = w.store.DeleteNode(x, w.insCmp, w.buf, &w.slSts1)
 
-		barrier := w.store.GetAccesBarrier()
-		vyield(SiteDelFlush)
-		barrier.FlushSession(unsafe.Pointer(x))
+		// Only the writer which deleted the node owns it: a writer that lost
+		// the race must neither touch its link nor hand it to the reclaimer
+		// a second time.
+		if success {
+			vyield(SiteDelSetLink)
+			x.SetLink(nil)
+			barrier := w.store.GetAccesBarrier()
+			vyield(SiteDelFlush)
+			barrier.FlushSession(unsafe.Pointer(x))
+		}
 		return
 	}
 
 	vyield(SiteDelDeadCAS)
 	success = atomic.CompareAndSwapUint32(&gotItem.deadSn, 0, sn)
 	if success {
+		vyield(SiteDelSetLink)
+		x.SetLink(nil)
 		vyield(SiteDelAppend)
 		if w.gctail == nil {
 			w.gctail = x
